@@ -33,7 +33,7 @@ RULE = ('EUI-64: literal vectors, then boundary MACs (0, all ones, U/L bit, ever
         'fragment x allow_fragments x default scheme, then seeded compositions with generated query pairs. '
         'non-trivial = every EUI/host:port case; a URL with a query, a fragment, userinfo, a port or an '
         'IPv6 literal. distinct by the rendered input text plus call arguments')
-REQUIRED_CLAUSES = ['eui64-forward', 'eui64-inverse', 'eui64-inverse-constructed', 'eui64-literal-vector',
+REQUIRED_CLAUSES = ['under-lazy-translation', 'documented-keyword-call', 'eui64-forward', 'eui64-inverse', 'eui64-inverse-constructed', 'eui64-literal-vector',
                     'eui64-must-raise-ipv4-prefix', 'eui64-must-raise-malformed-prefix',
                     'eui64-must-raise-malformed-mac', 'eui64-dont-care-no-unexpected-exception',
                     'hostport-roundtrip', 'hostport-default-port', 'hostport-documented-forms',
@@ -182,6 +182,8 @@ def _attr(obj, name):
 # ----------------------------------------------------------------------
 def _call_eui(prefix, mac):
     from oslo_utils import netutils
+    from vlib import callstyle
+    netutils = callstyle.proxy(netutils)
     try:
         return netutils.get_ipv6_addr_by_EUI64(prefix, mac), None
     except BaseException as e:  # noqa
@@ -190,6 +192,8 @@ def _call_eui(prefix, mac):
 
 def _check_inverse(ctx, case, clause, ipobj, mac):
     from oslo_utils import netutils
+    from vlib import callstyle
+    netutils = callstyle.proxy(netutils)
     ctx.clause(clause)
     try:
         back = netutils.get_mac_addr_by_ipv6(ipobj)
@@ -305,6 +309,8 @@ def port_class(port):
 
 def eval_hp(ctx, case):
     from oslo_utils import netutils
+    from vlib import callstyle
+    netutils = callstyle.proxy(netutils)
     host, fam, port, bracket, dmode, dflt = (case[k] for k in (
         'host', 'family', 'port', 'bracket', 'dmode', 'default'))
     if bracket == 'escape':
@@ -382,6 +388,8 @@ def same_params(got, want):
 
 def eval_url(ctx, case):
     from oslo_utils import netutils
+    from vlib import callstyle
+    netutils = callstyle.proxy(netutils)
     url = compose_url(case)
     af, dsch = case['allow_fragments'], case['default_scheme']
     args = []
@@ -512,8 +520,12 @@ EVAL = {'eui': eval_eui, 'eui-inv': eval_eui_inv, 'eui-lit': eval_eui_lit, 'eui-
         'eui-dc': eval_eui_dc, 'hp': eval_hp, 'url': eval_url}
 
 
-def evaluate(ctx, case):
+def _evaluate_plain(ctx, case):
     EVAL[case['kind']](ctx, case)
+
+
+from vlib import envmodes  # noqa: E402
+evaluate = envmodes.evaluate_with_modes(_evaluate_plain)
 
 
 # ----------------------------------------------------------------------
